@@ -125,7 +125,9 @@ static void check_trace(unsigned f, const std::vector<Op>& ops, int sink, Result
     if (!why.empty()) r.violation("enc|" + key, why, "sink=" + std::to_string(sink) + ";" + ops_str(f, ops));
 }
 
-static std::vector<uint64_t> bounds() { return {0, 1, 23, 24, 255, 256, 65535, 65536, 0xffffffffULL, 0x100000000ULL, 0x7fffffffffffffffULL, 0x8000000000000000ULL, 0xffffffffffffffffULL}; }
+// width boundaries, plus values whose bytes are all different at every head width (a head assembled with two bytes transposed is invisible to 2^k and 2^k-1)
+static std::vector<uint64_t> bounds() { return {0, 1, 23, 24, 255, 256, 65535, 65536, 0xffffffffULL, 0x100000000ULL, 0x7fffffffffffffffULL, 0x8000000000000000ULL, 0xffffffffffffffffULL,
+                                                0x0102ULL, 0xfe01ULL, 0x01020304ULL, 0xfedcba98ULL, 0x0102030405060708ULL, 0x0807060504030201ULL, 0xfedcba9876543210ULL, 0x7a6b5c4d3e2f1a0bULL, 0x010000000000ULL, 0x01000000000000ULL}; }
 
 // argument classes per kind (in range for the overload)
 static std::vector<Op> alphabet(unsigned f, bool small) {
